@@ -2,7 +2,8 @@
 use fbh::gal::*;
 use fbh::prng::Rng;
 use fbh::report::{guarded, Report};
-use maven_dependency_resolver::tree::{Forest, Tree};
+use maven_dependency_resolver::tree::helper::{l, t};
+use maven_dependency_resolver::tree::{Forest, Palette, Tree};
 
 fn gen_tree(rng: &mut Rng, depth: usize, budget: &mut usize, vals: usize) -> Tree<u64> {
 	let data = rng.below(vals) as u64;
@@ -11,7 +12,7 @@ fn gen_tree(rng: &mut Rng, depth: usize, budget: &mut usize, vals: usize) -> Tre
 		let k = match rng.below(6) { 0 | 1 => 0, 2 | 3 => 1, 4 => 2, _ => rng.range(3, 4) };
 		for _ in 0..k { if *budget == 0 { break; } *budget -= 1; children.push(gen_tree(rng, depth - 1, budget, vals)); }
 	}
-	Tree { data, children }
+	if children.is_empty() && rng.chance(1, 2) { l(data) } else if rng.chance(1, 2) { t(data, children) } else { Tree { data, children } }
 }
 pub fn gen_forest(rng: &mut Rng) -> Vec<Tree<u64>> {
 	let mut budget = rng.range(0, 40);
@@ -25,6 +26,28 @@ pub fn gen_forest(rng: &mut Rng) -> Vec<Tree<u64>> {
 pub fn g_tree(t: &Tree<u64>) -> String { format!("Node {} {}", t.data, glist(t.children.iter().map(|c| format!("({})", g_tree(c))))) }
 pub fn g_forest(f: &[Tree<u64>]) -> String { glist(f.iter().map(g_tree)) }
 fn size(f: &[Tree<u64>]) -> usize { f.iter().map(|t| 1 + size(&t.children)).sum() }
+
+/// reads a printed tree back: every line is <indentation of `width` columns per level><number>; a node's parent is the
+/// nearest earlier line with one level less
+fn reread(text: &str, width: usize) -> Option<Tree<u64>> {
+	// stack[k] = the node at level k that is still open
+	let mut stack: Vec<Tree<u64>> = vec![];
+	fn close(stack: &mut Vec<Tree<u64>>, level: usize) { while stack.len() > level { let c = stack.pop().unwrap(); stack.last_mut().unwrap().children.push(c); } }
+	for (n, line) in text.lines().enumerate() {
+		let chars: Vec<char> = line.chars().collect();
+		let digits = chars.iter().rev().take_while(|c| c.is_ascii_digit()).count();
+		let indent = chars.len() - digits;
+		if digits == 0 || indent % width != 0 { return None; }
+		let level = indent / width;
+		if (n == 0) != (level == 0) || level > stack.len() { return None; }
+		if n > 0 { close(&mut stack, level); }
+		let data = chars[indent..].iter().collect::<String>().parse().ok()?;
+		stack.push(Tree { data, children: vec![] });
+	}
+	if stack.is_empty() { return None; }
+	close(&mut stack, 1);
+	stack.pop()
+}
 
 /// the property on the implementation alone: what the documentation of breadth_first_retain promises for a
 /// first-seen predicate, computed by a plain level-by-level pass
@@ -56,6 +79,8 @@ pub fn cases(r: &mut Report, rng: &mut Rng, n: usize) {
 	for i in 0..n {
 		let f = gen_forest(rng);
 		let canon = g_forest(&f);
+		// the queue loops of tree.rs run on this forest next: should one of them never end, `check` reports the forest
+		fbh::report::crumb(&format!("property C19 (Forest::breadth_first / breadth_first_retain / Display did not return)\nforest: {canon}\n"));
 		r.eval(&format!("forest {canon}"), size(&f) >= 3);
 		r.count(&format!("forest_size_{}", match size(&f) { 0 => "0", 1..=3 => "1-3", 4..=10 => "4-10", 11..=25 => "11-25", _ => "26+" }));
 		// breadth-first listing, by value and by reference
@@ -68,9 +93,26 @@ pub fn cases(r: &mut Report, rng: &mut Rng, n: usize) {
 				let mut a = per_tree.clone(); a.sort(); let mut b = l.clone(); b.sort();
 				if a != b { r.violation("breadth_first does not list every node exactly once".into(), format!("property C19\nforest: {canon}\n")); }
 				r.case("bfs", format!("CBfs {canon} {}", gnums(l)));
+				// a single tree: Tree::into_breadth_first and Tree::breadth_first
+				if let Some(first) = f.first() {
+					let one = first.clone().into_breadth_first().collect::<Vec<u64>>();
+					if one != first.breadth_first().cloned().collect::<Vec<u64>>() { r.violation("Tree::breadth_first and Tree::into_breadth_first disagree".into(), format!("property C19\ntree: {}\n", g_tree(first))); }
+					if i % 4 == 0 { r.case("bfs", format!("CBfs [{}] {}", g_tree(first), gnums(one))); }
+				}
 			}
 			Err(p) => r.violation(format!("Forest::into_breadth_first panicked: {p}"), format!("property C19\nforest: {canon}\n")),
 		}
+		// the printed tree: Display and Debug of Tree, FormattedTree with both palettes.  Judged on the implementation alone by
+		// reading the text back: the indentation (4 resp. 3 columns per level) and the order of the lines give the tree again
+		if i % 3 == 0 { if let Some(first) = f.first() {
+			let texts = [format!("{first}"), format!("{first:?}"), format!("{}", first.format_with(|x| *x)), format!("{}", first.format_with(|x| *x).with_palette(Palette::ASCII))];
+			if texts[0] != texts[1] || texts[0] != texts[2] { r.violation("Display, Debug and format_with of one tree of integers differ".into(), format!("property C19\ntree: {}\n{texts:?}\n", g_tree(first))); }
+			for (k, (text, width)) in [(&texts[0], 4usize), (&texts[3], 3usize)].into_iter().enumerate() {
+				if reread(text, width).as_ref() != Some(first) { r.violation("the printed tree does not read back as the tree (one line per node, depth first, one indentation step per level)".into(), format!("property C19\ntree: {}\nprinted:\n{text}\n", g_tree(first))); }
+				r.case("tree-print", format!("CTreeShow {} ({}) {}", gbool(k == 1), g_tree(first), crate::pomgen::gs(text)));
+			}
+			r.count("tree_print_trees");
+		} }
 		// retain with stateful predicates
 		match i % 3 {
 			0 => {
